@@ -79,7 +79,8 @@ func c13Body(c *run.Ctx) {
 	}
 	var hooks sim.Hooks
 	hooks.Event = func(s *sim.Sim, e *sim.Event) {
-		if e.Kind == "action" {
+		if e.Kind == "action" && e.Action.Action != "pay" {
+			// (antes / blinds received are announced late by the hand's completion goroutine)
 			actionEvents++
 		}
 	}
